@@ -232,6 +232,7 @@ fn simpler_op(op: &SOp) -> Vec<SOp> {
     with(&|x| x.de_fault = None);
     with(&|x| x.nested = None);
     with(&|x| x.io_seed = 0);
+    with(&|x| x.binary = false);
     with(&|x| x.from_model = false);
     with(&|x| x.mode = 0);
     with(&|x| {
